@@ -7,6 +7,7 @@
                a block event is published only for the head just polled and not for an unchanged head;
                GetCurrentBlockNumber is the head last polled.
      delivery  what the epoch notifier receives was published before (each publication at most once).
+     subscriber  every epoch event handed to the notifier's fan-out reaches the subscriber exactly once.
      epochs    C18 on the sequence really received, restricted to the deliveries that exceed everything received before:
                exactly one notification per epoch in which such a block is at/after the threshold, at the first such
                block; epoch numbers strictly increase.
@@ -17,6 +18,9 @@
                                                     published during it; GetCurrentBlockNumber afterwards
      {"ev":"pubblock","b":B}                        the poller handed block event B to the fan-out (written before any
                                                     send of it can complete; the poll line follows when the poll is over)
+     {"ev":"epochpub","e":E}                        (slow-subscriber traces) the notifier handed epoch event E to its fan-out
+     {"ev":"consume","e":E}                         the subscriber took epoch event E from its channel (-1: it waited in vain)
+     {"ev":"subend","consumed":K}                   the subscriber has taken everything it could get
      {"ev":"block","b":B,"pub":[E1,...]}            the epoch notifier received block event B; epochs published while
                                                     it was handled
 *)
@@ -28,9 +32,10 @@ VARIABLES l, t, N, S, P,
           prevR,      \* result of the previous poll (-2 = none yet, -1 = error)
           pending,    \* published block events not yet received (sequence, order irrelevant)
           lastB, done, lastEpoch,
+          outbox,     \* epoch events handed to the notifier's fan-out and not yet taken by the subscriber
           viol
 
-vars == <<l, t, N, S, P, prevR, pending, lastB, done, lastEpoch, viol>>
+vars == <<l, t, N, S, P, prevR, pending, lastB, done, lastEpoch, outbox, viol>>
 
 EpochNumber(b)        == IF b < S THEN 0 ELSE 1 + ((b - S) \div N)
 StartingBlockEpoch(e) == IF e = 0 THEN S - 1 ELSE S + (e - 1) * N
@@ -40,14 +45,18 @@ Past(b)               == 100 * Elapsed(b) >= Min(P * N, 100 * (N - 1))
 
 Init ==
   /\ TLCSet(1, 0)
-  /\ l = 1 /\ t = 0 /\ N = 1 /\ S = 0 /\ P = 0 /\ prevR = -2 /\ pending = <<>> /\ lastB = -1 /\ done = {} /\ lastEpoch = 0 /\ viol = <<>>
+  /\ l = 1 /\ t = 0 /\ N = 1 /\ S = 0 /\ P = 0 /\ prevR = -2 /\ pending = <<>> /\ lastB = -1 /\ done = {} /\ lastEpoch = 0 /\ outbox = <<>> /\ viol = <<>>
 
 V(kind, info) == [t |-> t, l |-> l, inv |-> kind, info |-> info]
+
+RemoveOne(seq, x) ==
+  LET i == CHOOSE j \in DOMAIN seq : seq[j] = x /\ \A k \in DOMAIN seq : seq[k] = x => j <= k
+  IN [k \in 1..(Len(seq) - 1) |-> IF k < i THEN seq[k] ELSE seq[k + 1]]
 
 EvCfg ==
   /\ l <= Len(Trace) /\ Trace[l].ev = "cfg"
   /\ N' = Trace[l].n /\ S' = Trace[l].s /\ P' = Trace[l].p
-  /\ t' = t + 1 /\ prevR' = -2 /\ pending' = <<>> /\ lastB' = -1 /\ done' = {} /\ lastEpoch' = 0
+  /\ t' = t + 1 /\ prevR' = -2 /\ pending' = <<>> /\ lastB' = -1 /\ done' = {} /\ lastEpoch' = 0 /\ outbox' = <<>>
   /\ l' = l + 1 /\ UNCHANGED viol
 
 EvPoll ==
@@ -61,19 +70,35 @@ EvPoll ==
                THEN <<V("CurrentBlockIsLastObserved", [r |-> e.r, cur |-> e.cur])>> ELSE <<>>
      IN /\ viol' = viol \o v1 \o v2 \o v3
         /\ prevR' = e.r
-  /\ l' = l + 1 /\ UNCHANGED <<t, N, S, P, pending, lastB, done, lastEpoch>>
+  /\ l' = l + 1 /\ UNCHANGED <<t, N, S, P, pending, lastB, done, lastEpoch, outbox>>
 
 EvPub ==
   /\ l <= Len(Trace) /\ Trace[l].ev = "pubblock"
   /\ pending' = Append(pending, Trace[l].b)
-  /\ l' = l + 1 /\ UNCHANGED <<t, N, S, P, prevR, lastB, done, lastEpoch, viol>>
+  /\ l' = l + 1 /\ UNCHANGED <<t, N, S, P, prevR, lastB, done, lastEpoch, outbox, viol>>
+
+EvEpochPub ==
+  /\ l <= Len(Trace) /\ Trace[l].ev = "epochpub"
+  /\ outbox' = Append(outbox, Trace[l].e)
+  /\ l' = l + 1 /\ UNCHANGED <<t, N, S, P, prevR, pending, lastB, done, lastEpoch, viol>>
+
+EvConsume ==
+  /\ l <= Len(Trace) /\ Trace[l].ev = "consume"
+  /\ LET e == Trace[l].e
+         known == \E j \in DOMAIN outbox : outbox[j] = e IN
+     /\ outbox' = IF known THEN RemoveOne(outbox, e) ELSE outbox
+     /\ viol' = viol \o (IF known THEN <<>>
+                         ELSE IF e = -1 THEN <<V("EveryNotificationReachesSubscriber", [waiting |-> outbox])>>
+                         ELSE <<V("SubscriberGetsOnlyWhatWasPublishedOnce", [e |-> e, waiting |-> outbox])>>)
+  /\ l' = l + 1 /\ UNCHANGED <<t, N, S, P, prevR, pending, lastB, done, lastEpoch>>
+
+EvSubEnd ==
+  /\ l <= Len(Trace) /\ Trace[l].ev = "subend"
+  /\ viol' = viol \o (IF outbox = <<>> THEN <<>> ELSE <<V("EveryNotificationReachesSubscriber", [lost |-> outbox])>>)
+  /\ l' = l + 1 /\ UNCHANGED <<t, N, S, P, prevR, pending, lastB, done, lastEpoch, outbox>>
 
 Increasing(pub, last) == /\ \A i \in 1..(Len(pub) - 1) : pub[i] < pub[i + 1]
                          /\ Len(pub) > 0 => pub[1] > last
-
-RemoveOne(seq, x) ==
-  LET i == CHOOSE j \in DOMAIN seq : seq[j] = x /\ \A k \in DOMAIN seq : seq[k] = x => j <= k
-  IN [k \in 1..(Len(seq) - 1) |-> IF k < i THEN seq[k] ELSE seq[k + 1]]
 
 EvBlock ==
   /\ l <= Len(Trace) /\ Trace[l].ev = "block"
@@ -103,15 +128,15 @@ EvBlock ==
              /\ done' = IF b >= S /\ Past(b) THEN done \cup {e} ELSE done
              /\ lastEpoch' = IF pub = <<>> THEN lastEpoch ELSE pub[Len(pub)]
              /\ viol' = viol \o v0 \o v1 \o v2
-  /\ l' = l + 1 /\ UNCHANGED <<t, N, S, P, prevR>>
+  /\ l' = l + 1 /\ UNCHANGED <<t, N, S, P, prevR, outbox>>
 
 Finish ==
   /\ l = Len(Trace) + 1
   /\ PrintT(<<"VIOL", ToJson(viol)>>)
   /\ PrintT(<<"DONE", ToJson([lines |-> Len(Trace), traces |-> t])>>)
-  /\ l' = l + 1 /\ UNCHANGED <<t, N, S, P, prevR, pending, lastB, done, lastEpoch, viol>>
+  /\ l' = l + 1 /\ UNCHANGED <<t, N, S, P, prevR, pending, lastB, done, lastEpoch, outbox, viol>>
 
-Next == EvCfg \/ EvPoll \/ EvPub \/ EvBlock \/ Finish
+Next == EvCfg \/ EvPoll \/ EvPub \/ EvBlock \/ EvEpochPub \/ EvConsume \/ EvSubEnd \/ Finish
 Spec == Init /\ [][Next]_vars
 
 HW == TLCSet(1, IF l > TLCGet(1) THEN l ELSE TLCGet(1))
